@@ -70,6 +70,7 @@ def configs(tier):
         for letter in ("X", "Y"):
             out.append({"part": "end-to-end", "obs": letter, "kind": kind, "n": n})
     out.append({"generic": "every shape"})
+    out.append({"lean": "size-generic lemmas"})
     return out
 
 
@@ -79,6 +80,9 @@ def canaries(tier):
 
 
 def run_config(ctx, cfg):
+    if cfg.get("lean"):
+        from contracts import leanlink
+        return leanlink.run(ctx, "C08")
     if cfg.get("generic"):
         from contracts import gsets
         return gsets.run(ctx, "C08")
